@@ -257,3 +257,120 @@ void h_find(void) {
   CHECK(t.elems == (uint32_t)in_n && t.length == in_len && tbl_total(&t) == in_n, "lru_table_find: does not modify the table");
   CANARY();
 }
+
+/* ========================================================== lru.tbl_lookup */
+void h_tbl_lookup(void) {
+  lru_table_t t; ldb_slice_t key; uint8_t *kd; lru_handle_t *res; int ri;
+  IN_U32(in_len); IN_INT(in_n); IN_SIZE(in_klen); IN_U32(in_hash); IN_INT(in_k);
+  ASSUME(in_len == 4 || in_len == 8);
+  ASSUME(in_n >= 0 && in_n <= LRU_N);
+  ASSUME(in_klen <= LRU_K);
+  build_table(&t, in_len, in_n, LRU_K, 1);        /* table invariant: keys pairwise distinct */
+  kd = mk_key(in_klen, LRU_K);
+  key.data = kd; key.size = in_klen; key.alloc = 0;
+
+  res = lru_table_lookup(&t, &key, in_hash);
+
+  ri = idx_of(res);
+  CHECK(res == NULL || (ri >= 0 && ri < in_n), "lru_table_lookup: NULL or a handle of the table");
+  CHECK(res == NULL || key_is(res, in_hash, kd, in_klen), "lru_table_lookup: a returned handle is stored under EXACTLY the key (hash, length, bytes) asked for");
+  ASSUME(in_k >= 0 && in_k < in_n);
+  CHECK(!key_is(G[in_k], in_hash, kd, in_klen) || res == G[in_k], "lru_table_lookup: every key present in the table is found");
+  CHECK(t.elems == (uint32_t)in_n && t.length == in_len && tbl_total(&t) == in_n, "lru_table_lookup: does not modify the table");
+  CANARY();
+}
+
+/* ========================================================== lru.tbl_insert */
+void h_tbl_insert(void) {
+  lru_table_t t; lru_handle_t *h, *old, **old_list; int oi, c, i, any = 0; uint32_t b = 99, want_len;
+  IN_U32(in_len); IN_INT(in_n); IN_INT(in_k);
+  ASSUME(in_len == 2 || in_len == 4);              /* 2: smaller than the code ever makes it, to reach the resize with few handles */
+  ASSUME(in_n >= 0 && in_n <= LRU_N && (uint32_t)in_n <= in_len);
+  build_table(&t, in_len, in_n, LRU_K, 1);
+  old_list = t.list;
+  h = mk_handle(LRU_K);
+  h->next = NULL;                                  /* lru_handle_key's (compiled out) assert reads it */
+  G[LRU_N] = h;
+  for (i = 0; i < LRU_N; i++) if (i < in_n && same_key(G[i], h)) any = 1;
+
+  old = lru_table_insert(&t, h);
+
+  oi = idx_of(old);
+  CHECK(old == NULL || (oi >= 0 && oi < in_n), "lru_table_insert: returns NULL or a handle that was in the table");
+  CHECK(old == NULL || same_key(old, h), "lru_table_insert: the returned old handle has exactly the new handle's key");
+  CHECK(any == (old != NULL), "lru_table_insert: an existing handle with the same key is always found and returned");
+  CHECK(t.elems == (uint32_t)in_n + (old == NULL ? 1u : 0u), "lru_table_insert: elems grows by one exactly when no handle was replaced");
+  CHECK(tbl_total(&t) == (int)t.elems, "lru_table_insert: elems equals the number of chained handles");
+  c = tbl_count(&t, h, &b);
+  CHECK(c == 1 && b == (h->hash & (t.length - 1)), "lru_table_insert: the new handle is chained exactly once, in bucket hash & (length-1)");
+  b = 99;
+  CHECK(old == NULL || tbl_count(&t, old, &b) == 0, "lru_table_insert: the replaced handle is no longer chained");
+  ASSUME(in_k >= 0 && in_k < in_n);
+  b = 99; c = tbl_count(&t, G[in_k], &b);
+  CHECK(G[in_k] == old || (c == 1 && b == (S[in_k].hash & (t.length - 1))), "lru_table_insert: every other handle stays chained exactly once in its bucket");
+  /* resize policy: average chain length <= 1 */
+  want_len = in_len;
+  if (old == NULL && (uint32_t)in_n + 1 > in_len) want_len = 4;
+  CHECK(t.length == want_len && t.elems <= t.length, "lru_table_insert: the table is resized exactly when elems exceeds length");
+  CHECK((t.length == in_len) == (t.list == old_list), "lru_table_insert: bucket array replaced only by a resize");
+  CHECK(X.frees == (t.list != old_list ? 1 : 0) && (X.frees == 0 || X.freed[0] == (void *)old_list), "lru_table_insert: frees only the old bucket array, never a handle");
+  CANARY();
+}
+
+/* ========================================================== lru.tbl_remove */
+void h_tbl_remove(void) {
+  lru_table_t t; ldb_slice_t key; uint8_t *kd; lru_handle_t *res, **old_list; int ri, c; uint32_t b = 99;
+  IN_U32(in_len); IN_INT(in_n); IN_SIZE(in_klen); IN_U32(in_hash); IN_INT(in_k);
+  ASSUME(in_len == 4 || in_len == 8);
+  ASSUME(in_n >= 0 && in_n <= LRU_N);
+  ASSUME(in_klen <= LRU_K);
+  build_table(&t, in_len, in_n, LRU_K, 1);
+  old_list = t.list;
+  kd = mk_key(in_klen, LRU_K);
+  key.data = kd; key.size = in_klen; key.alloc = 0;
+
+  res = lru_table_remove(&t, &key, in_hash);
+
+  ri = idx_of(res);
+  CHECK(res == NULL || (ri >= 0 && ri < in_n), "lru_table_remove: NULL or a handle of the table");
+  CHECK(res == NULL || key_is(res, in_hash, kd, in_klen), "lru_table_remove: removes only a handle with exactly the key asked for");
+  CHECK(t.elems == (uint32_t)in_n - (res != NULL ? 1u : 0u) && tbl_total(&t) == (int)t.elems, "lru_table_remove: elems shrinks by one exactly when a handle was removed, and equals the number of chained handles");
+  CHECK(res == NULL || tbl_count(&t, res, &b) == 0, "lru_table_remove: the removed handle is no longer chained");
+  ASSUME(in_k >= 0 && in_k < in_n);
+  CHECK(!key_is(G[in_k], in_hash, kd, in_klen) || res == G[in_k], "lru_table_remove: a present key is always removed");
+  b = 99; c = tbl_count(&t, G[in_k], &b);
+  CHECK(G[in_k] == res || (c == 1 && b == (S[in_k].hash & (in_len - 1))), "lru_table_remove: every other handle stays chained exactly once in its bucket");
+  CHECK(t.length == in_len && t.list == old_list && X.frees == 0, "lru_table_remove: bucket array kept, nothing freed");
+  CANARY();
+}
+
+/* ========================================================== lru.tbl_resize */
+void h_tbl_resize(void) {
+  lru_table_t t; lru_handle_t **old_list; int c, i; uint32_t b = 99, want = 4;
+  IN_U32(in_len); IN_INT(in_n); IN_INT(in_k);
+  ASSUME(in_len == 0 || in_len == 1 || in_len == 2 || in_len == 4);       /* 0: lru_table_init (list == NULL) */
+  ASSUME(in_n >= 0 && in_n <= LRU_N && (in_len != 0 || in_n == 0));
+  if (in_len == 0) {
+    ghost_reset();
+    for (i = 0; i < LRU_M; i++) G[i] = NULL;
+    t.length = 0; t.elems = 0; t.list = NULL; g_n = 0;
+  } else {
+    build_table(&t, in_len, in_n, 1, 1);
+  }
+  old_list = t.list;
+
+  lru_table_resize(&t);
+
+  while (want < (uint32_t)in_n) want *= 2;
+  CHECK(t.length == want && is_pow2(t.length) && t.length >= 4 && t.length >= t.elems, "lru_table_resize: new length = smallest power of two >= max(4, elems)");
+  CHECK(t.elems == (uint32_t)in_n, "lru_table_resize: elems unchanged");
+  CHECK(tbl_total(&t) == in_n, "lru_table_resize: no handle lost, none duplicated");
+  if (in_n > 0) {
+    ASSUME(in_k >= 0 && in_k < in_n);
+    c = tbl_count(&t, G[in_k], &b);
+    CHECK(c == 1 && b == (S[in_k].hash & (t.length - 1)), "lru_table_resize: every handle lands exactly once in bucket hash & (new_length-1)");
+  }
+  CHECK(X.mallocs == 1 && t.list == (lru_handle_t **)X.last_malloc && X.last_malloc_n == (size_t)t.length * sizeof(lru_handle_t *), "lru_table_resize: bucket array of new_length pointers");
+  CHECK(X.frees == (old_list != NULL ? 1 : 0) && (old_list == NULL || X.freed[0] == (void *)old_list), "lru_table_resize: the old bucket array is freed exactly once, no handle is freed");
+  CANARY();
+}
